@@ -95,6 +95,7 @@ def run(ctx, module, theorems, variants, nq, nt, level, explanation, gen=None, g
                     nshrunk += 1
                 ctx.fail(what + " | program: " + spine.to_src(small).replace("\n", " "),
                          {"program": small, "src": spine.to_src(small), "tag": tag, "variant_seed": sd}, sig)
+    ctx.extra["specification_first_order"] = {k: (round(v, 1) if isinstance(v, float) else v) for k, v in semcheck.FO_STATS.items()}
     return ctx.finish(level, explanation)
 
 
